@@ -136,3 +136,58 @@ def build(cell, pname, rotM, fracpos, decoy='none', atol=0.05, noise=False, seed
         pos.append((rot2 @ pp.T).T + np.array(frac2) @ cell); el += list(pel); planted.append(tuple(range(n0, n0 + k)))
     pos = wrap(np.vstack(pos), cell)
     return dict(pos=pos, el=el, planted=planted, pp=pp, pel=pel)
+
+
+def sheet_pattern(n=30, height=0.5):
+    """many-atom chiral pattern: an irregular flat sheet of n atoms (elements cycling C, N, O; pairwise >= 1.3 A apart,
+    within a 11 x 11 A square) plus one apex atom (S) `height` above the sheet.  Its mirror image differs in one atom
+    only, by 2*height; the rms displacement of the mirror image is 2*height/sqrt(n+1)."""
+    r = np.random.RandomState(20240607); pts = []
+    while len(pts) < n:
+        q = r.uniform(0, 11.0, 2)
+        if all(np.linalg.norm(q - p) >= 1.3 for p in pts):
+            pts.append(q)
+    pp = np.array([(x, y, 0.0) for x, y in pts] + [(5.3, 5.9, height)])
+    return [['C', 'N', 'O'][i % 3] for i in range(n)] + ['S'], pp
+
+
+def sheet_structure(cell, rotM, anchor_frac, mirror_anchor_frac, n=30, height=0.5):
+    """(elements, positions, planted proper copy, planted mirror-image copy) in `cell` (wrapped)"""
+    from mc.ref.geom import wrap
+    pel, pp = sheet_pattern(n, height)
+    proper = (rotM @ (pp - pp.mean(0)).T).T + np.asarray(anchor_frac) @ cell
+    mir = pp.copy(); mir[:, 2] *= -1
+    rot2 = rotM @ rotM
+    mirror = (rot2 @ (mir - mir.mean(0)).T).T + np.asarray(mirror_anchor_frac) @ cell
+    pos = wrap(np.vstack([proper, mirror]), cell)
+    k = len(pel)
+    return pel + pel, pos, tuple(range(k)), tuple(range(k, 2 * k))
+
+
+def _wrap(pos, cell):
+    from mc.ref.geom import wrap
+    return wrap(pos, cell)
+
+
+SHEET_CELLS = [np.diag([30.0, 30.0, 30.0]), np.array([[30.0, 0, 0], [4.0, 31.0, 0], [-5.0, 3.0, 29.0]])]
+
+
+def large_case(order):
+    """32768 inert He atoms on a grid + 5 rotated C-O-H copies (one across a cell corner, one across a face); in the periodic
+    image list every copy atom that is stored after the grid, or is an image, has an index beyond 2^15"""
+    L = 64.0; cell = np.diag([L, L, L])
+    g = np.arange(32) * 2.0 + 1.0
+    he = np.array(np.meshgrid(g, g, g)).T.reshape(-1, 3)
+    pp = np.array([(0.0, 0.0, 0.0), (1.15, 0.0, 0.0), (1.45, 0.93, 0.0)]); pel = ['C', 'O', 'H']
+    rots = generic_rotations(0, 5)
+    anchors = [(0.2, 0.3, 0.2), (63.9, 63.8, 63.9), (63.7, 20.2, 30.3), (10.1, 10.2, 50.3), (40.4, 0.15, 40.2)]
+    copies = [_wrap((rots[i] @ pp.T).T + np.array(a), cell) for i, a in enumerate(anchors)]
+    if order == 0:      # copies after the grid
+        pos = np.vstack([he] + copies); el = ['He'] * len(he) + pel * 5; planted = [tuple(range(len(he) + 3 * i, len(he) + 3 * i + 3)) for i in range(5)]
+    elif order == 2:    # copies before the grid
+        pos = np.vstack(copies + [he]); el = pel * 5 + ['He'] * len(he); planted = [tuple(range(3 * i, 3 * i + 3)) for i in range(5)]
+    else:               # one copy first, C atoms first and O/H after the grid
+        cs = [c[0] for c in copies]; os_ = [c[1] for c in copies]; hs = [c[2] for c in copies]
+        pos = np.vstack([np.array(cs), he, np.array(os_), np.array(hs)]); n = len(he)
+        el = ['C'] * 5 + ['He'] * n + ['O'] * 5 + ['H'] * 5; planted = [(i, 5 + n + i, 10 + n + i) for i in range(5)]
+    return cell, pos, el, pp, pel, planted
